@@ -98,7 +98,7 @@ def loop_iteration(ctx, prog, nevents=2):
     ex = io_executor(ctx, prog, unwind=nevents + 3, extra=mio_summaries() + time_summaries() + [(r'^(mio::)?Poll::poll$', poll_stub), (r'^verif_handle_event$', handler_stub), (r'^verif_is_done$', done_stub)])
     ex.cut_block = (re.escape(f.name) + '$', head, 1)
     a, b = z3.BitVec('chan_a', 16), z3.BitVec('chan_b', 16)
-    st, w = build_steady(prog, [('A', a, {'consumers': 0}), ('B', b, {'consumers': 0})])
+    st, w = build_steady(prog, [('A', a, {'consumers': 0}), ('B', b, {'consumers': 0})], sealed=sym('sealed0', z3.BoolSort()))   # a close may already be queued
     st.roots['clock'] = Clock()
     poll = PollModel()
     st.roots['poll'] = poll
